@@ -163,3 +163,11 @@ Proof.
   intros c bs Hbs H. unfold reverse_iter_lines.
   rewrite (reverse_bytes_spec c bs (length c) Hbs); rewrite firstn_all; [reflexivity|assumption].
 Qed.
+
+(* a text-mode file in a single-byte encoding whose code points are the byte values (latin-1) *)
+Theorem reverse_latin1_spec : forall c bs, (1 <= bs)%nat -> no_lone_cr c = true ->
+  reverse_iter_lines TextLatin1 c bs (length c) = Ok (reverse_lines_spec c).
+Proof.
+  intros c bs Hbs H. unfold reverse_iter_lines.
+  rewrite (reverse_bytes_spec c bs (length c) Hbs); rewrite firstn_all; [reflexivity|assumption].
+Qed.
